@@ -36,7 +36,7 @@ func condObject(base map[string]model.Value, k int, mask int, r *rand.Rand) map[
 func c02(c *ev.Ctx) {
 	c.SetRule("random structured programs (if/else-if/else, while/for, foreach over array/string/hash/range/variable with optional index, switch with literal/expression/regexp/multi-value arms and default in any position, ternary, return at any depth); every program is run under every truth assignment of its condition fields C1..Ck (fresh evaluator per assignment), optimised and NoOptimize; compared with the reference model on result, host-call trace (unique ids per trace call) and variables left. Distinct = distinct (program, assignment); non-trivial = model defines the outcome and the trace is non-empty or the result non-null.")
 	c.Assume("reference model internal/model; value-yielding expression statements inside foreach bodies are a known finding and excluded by the generator")
-	n := c.Pick(500, 20000)
+	n := c.Pick(4000, 40000)
 	c.ParFor(n, func(i int) {
 		id := fmt.Sprintf("prog/%d", i)
 		if !c.Want(id) {
@@ -131,8 +131,110 @@ func c02(c *ev.Ctx) {
 			c.Case(gast.Text(sw.p)+fmt.Sprint(noOpt), judged > 0)
 		}
 	})
+	c02ExitHistories(c)
 	// fixed regression / probe cases
 	c02Probes(c)
+}
+
+// c02ExitHistories: loops that are left early (return, run-time error) in one run, then
+// runs on the same evaluator whose next loop at that depth mentions the abandoned loop's
+// names without binding them. Few names, so the roles clash all the time.
+func c02ExitHistories(c *ev.Ctx) {
+	names := []string{"x", "e", "i", "k"}
+	id := func(n string) gast.Expr { return gast.Ident{Name: n} }
+	il := func(v int64) gast.Expr { return gast.IntLit{V: v} }
+	n := c.Pick(300, 6000)
+	c.ParFor(n, func(i int) {
+		cid := fmt.Sprintf("exit-history/%d", i)
+		if !c.Want(cid) {
+			return
+		}
+		r := c.Rng("exit-history", i)
+		tid := int64(0)
+		tr := func(a ...gast.Expr) gast.Stmt {
+			tid++
+			return gast.ExprStmt{X: gast.Call{Fn: "t", Args: append([]gast.Expr{il(tid)}, a...)}}
+		}
+		container := func() gast.Expr {
+			switch r.Intn(4) {
+			case 0:
+				return gast.ArrayLit{Els: []gast.Expr{il(7), gast.StrLit{V: "s"}, il(9)}}
+			case 1:
+				return gast.StrLit{V: "héy"}
+			case 2:
+				return gast.Infix{Op: "..", L: il(1), R: il(3)}
+			}
+			return gast.HashLit{Keys: []gast.Expr{gast.StrLit{V: "a"}, gast.StrLit{V: "b"}}, Vals: []gast.Expr{il(1), il(2)}}
+		}
+		loop := func(depth int, leaving bool) gast.Stmt {
+			var mk func(d int) gast.Stmt
+			mk = func(d int) gast.Stmt {
+				f := gast.Foreach{Var: names[r.Intn(len(names))], It: container()}
+				if r.Intn(2) == 0 {
+					f.Idx = names[r.Intn(len(names))]
+					if f.Idx == f.Var {
+						f.Idx = ""
+					}
+				}
+				// what the body mentions: any name of the pool, bound here or not
+				a, b := names[r.Intn(len(names))], names[r.Intn(len(names))]
+				f.Body = append(f.Body, tr(id(a), id(b)))
+				if r.Intn(3) == 0 {
+					f.Body = append(f.Body, gast.Assign{Name: names[r.Intn(len(names))], X: il(int64(40 + r.Intn(5)))})
+				}
+				if d > 1 {
+					f.Body = append(f.Body, mk(d-1))
+				} else if leaving {
+					var exit gast.Stmt = gast.Return{X: id(f.Var)}
+					if r.Intn(3) == 0 {
+						exit = gast.Assign{Name: "boom", X: gast.Infix{Op: "/", L: il(1), R: id("ZERO")}}
+					}
+					cond := gast.Infix{Op: "&&", L: id("Leave"), R: gast.Infix{Op: "==", L: id("n"), R: il(int64(r.Intn(3)))}}
+					f.Body = append(f.Body, gast.If{C: cond, Then: []gast.Stmt{exit}})
+				}
+				f.Body = append(f.Body, gast.Assign{Name: "n", X: gast.Infix{Op: "+", L: id("n"), R: il(1)}})
+				return f
+			}
+			return mk(depth)
+		}
+		var p gast.Program
+		body := []gast.Stmt{gast.Assign{Name: "n", X: il(0)}}
+		d1 := 1 + r.Intn(2)
+		if first := loop(d1, true); r.Intn(3) > 0 {
+			// a later run may skip the loop that an earlier run abandoned
+			body = append(body, gast.If{C: id("Take"), Then: []gast.Stmt{first}})
+		} else {
+			body = append(body, first)
+		}
+		body = append(body, tr(id(names[r.Intn(len(names))])))
+		body = append(body, loop(1+r.Intn(2), false))
+		for _, nm := range names {
+			body = append(body, tr(id(nm)))
+		}
+		if r.Intn(3) == 0 {
+			// the loops live in a function called from the top level (or from a loop)
+			p.Stmts = append(p.Stmts, gast.FuncDef{Name: "walk", Params: []string{names[r.Intn(len(names))]}, Body: append(body, gast.Return{X: id("n")})})
+			call := gast.Assign{Name: "res", X: gast.Call{Fn: "walk", Args: []gast.Expr{il(3)}}}
+			if r.Intn(2) == 0 {
+				p.Stmts = append(p.Stmts, gast.Foreach{Var: names[r.Intn(len(names))], It: gast.ArrayLit{Els: []gast.Expr{il(1), il(2)}}, Body: []gast.Stmt{call}}, gast.Return{X: id("res")})
+			} else {
+				p.Stmts = append(p.Stmts, call, gast.Return{X: id("res")})
+			}
+		} else {
+			p.Stmts = append(body, gast.Return{X: id("n")})
+		}
+		var seq []map[string]model.Value
+		for k := 0; k < 5; k++ {
+			seq = append(seq, map[string]model.Value{"Leave": model.Bool(k%2 == 0 || r.Intn(3) == 0), "Take": model.Bool(k%2 == 0 || r.Intn(3) == 0), "ZERO": model.Int(0)})
+		}
+		noOpt := r.Intn(2) == 0
+		judged := checkProgramAgainstModel(c, cid, "loop left early, later runs on the same evaluator", p, nil, seq, noOpt)
+		c.Case(gast.Text(p)+fmt.Sprint(noOpt), judged > 0)
+		if judged > 0 {
+			c.Count("exit_history_runs_judged", judged)
+		}
+		c.SampleEvery(i, func() interface{} { return map[string]interface{}{"script": gast.Text(p), "kind": "exit history"} })
+	})
 }
 
 func c02Probes(c *ev.Ctx) {
